@@ -355,8 +355,12 @@ def enum_src(e: Enum_, style: str, indent: str) -> str:
     out = f"{indent}class {e.name}(Enum):\n"
     if e.doc:
         out += f'{indent}    """{e.doc}"""\n'
-    for i, m in enumerate(e.members):
-        out += f"{indent}    {m} = {i + 1}\n"
+    if len(e.members) == 3 and sum(map(ord, e.name)) % 2 == 0:
+        # one statement with a tuple target (no random draw: the members and their order are the same)
+        out += f"{indent}    {', '.join(e.members)} = 1, 2, 3\n"
+    else:
+        for i, m in enumerate(e.members):
+            out += f"{indent}    {m} = {i + 1}\n"
     if not e.members and not e.doc and not e.body_extra:
         out += f"{indent}    pass\n"
     for line in e.body_extra.splitlines():
